@@ -16,16 +16,16 @@ T=$(mktemp -d); cp $MODDIR/go.mod $MODDIR/go.sum $T/
 res() { echo "$1" | tee -a $DST/confirm.log; }
 : > $DST/confirm.log
 # demo on original
-cp $DST/zz_demo_test.go $W/$PKG/
-(cd $W/$PKG && go test -modfile $T/go.mod -vet=off -count=1 -run 'Demo|ZZ|Zz|zz' -timeout 120s . >$T/o1 2>&1); r1=$?
+mkdir -p $W/$PKG; cp $DST/zz_demo_test.go $W/$PKG/
+(cd $W/$PKG && go test ${RACE:+-race} -modfile $T/go.mod -vet=off -count=1 -run 'Demo|ZZ|Zz|zz' -timeout 120s . >$T/o1 2>&1); r1=$?
 res "demo on original tree: exit $r1 (expect 0)"
 rm $W/$PKG/zz_demo_test.go
 if ! git -C $W apply $DST/patch.diff; then res "PATCH DOES NOT APPLY"; git -C /repo worktree remove --force $W; exit 8; fi
 (cd $MODDIR && go build -modfile $T/go.mod ./... >$T/b 2>&1); res "build with change: exit $?"
 (cd $MODDIR && go test -modfile $T/go.mod -vet=off -count=1 ./... >$T/t 2>&1); rt=$?
 res "existing suite with change: exit $rt; failing packages: $(grep -c '^FAIL' $T/t) ($(grep '^FAIL' $T/t | grep -v 'licenseclassifier\s' | head -3 | tr '\n' ' '))"
-cp $DST/zz_demo_test.go $W/$PKG/
-(cd $W/$PKG && go test -modfile $T/go.mod -vet=off -count=1 -run 'Demo|ZZ|Zz|zz' -timeout 120s . >$T/o2 2>&1); r2=$?
+mkdir -p $W/$PKG; cp $DST/zz_demo_test.go $W/$PKG/
+(cd $W/$PKG && go test ${RACE:+-race} -modfile $T/go.mod -vet=off -count=1 -run 'Demo|ZZ|Zz|zz' -timeout 120s . >$T/o2 2>&1); r2=$?
 res "demo with change: exit $r2 (expect non-zero)"
 git -C /repo worktree remove --force $W; rm -rf $T
 # now our check on /repo itself
